@@ -48,6 +48,9 @@ def xscript(R):
             ops.append('ISCMD:' + R.choice(gen.PATS).hex())
         else:
             ops.append('RHDR:%d' % R.choice([0, 1, 9, 10, 99, 100, 999999999, 1000000000, 4294967295]))
+    if R.random() < 0.25:
+        # the handler asks for the header's numeric suffixes with an array shorter than, equal to or longer than the pattern needs
+        ops.insert(0, 'NUMS:%d:%d' % (R.randint(0, 3), R.choice([-1, 0, 7])))
     if R.random() < 0.1:
         ops.append('RETERR')
     return ';'.join(ops) if ops else '-'
